@@ -246,6 +246,11 @@ func (s *spend) runPar() string {
 		wg.Add(1)
 		go func(g int) {
 			defer wg.Done()
+			defer func() {
+				if r := recover(); r != nil {
+					bad <- fmt.Sprintf("panic:%d", g)
+				}
+			}()
 			it := parItem{s, want}
 			hc, pf := shared, txscript.PrevOutputFetcher(f)
 			if g >= 4 && len(others) > 0 {
